@@ -111,6 +111,8 @@ pub fn texts() -> Vec<String> {
         "-3", "+7", "-1.5", "+0.5", "-", "+", "- 3", "-a", "+a", "--3", "-3-", "3-", "3-4", "a-b", "1+2", "-.5", "-0", "+-1",
         // quoted
         "\"a b\"", "\"x,y\"", "\"\"", "\"(\"", "\"$X\"", "\"12\"", "\"-3\"",
+        // quotation marks that do not enclose the whole text
+        "a\"b\"c", "x\"y z\"", "\"a\" \"b\"", "\"a\"b",
         // lists
         "[]", "[a]", "[a, b]", "[a | $T]", "[[a], b]", "[-3]", "[$X + 1]", "[1, 2.5, \"q\"]",
         // complex terms and functions
@@ -191,6 +193,19 @@ fn escape_shape(t: &str) -> bool {
     for c in t.chars() { if c == '"' { quote = !quote; } if c == '\\' && !quote { return true; } }
     false
 }
+/// quotation marks (outside brackets, not escaped) that are not exactly one pair enclosing the whole text
+fn quotes_shape(t: &str) -> bool {
+    let cs: Vec<char> = t.chars().collect();
+    let mut n = 0; let mut depth = 0i32; let mut k = 0; let mut quote = false;
+    while k < cs.len() {
+        let c = cs[k];
+        if c == '\\' { k += 2; continue; }
+        if c == '"' { if depth == 0 { n += 1; } quote = !quote; }
+        else if !quote { if c == '(' || c == '[' { depth += 1; } if c == ')' || c == ']' { depth -= 1; } }
+        k += 1;
+    }
+    n != 0 && !(n == 2 && cs[0] == '"' && cs[cs.len() - 1] == '"')
+}
 fn flags_shape(t: &str) -> bool {
     !t.is_empty() && t.chars().all(|c| c.is_ascii_digit() || c == '.' || c == '+' || c == '-' || c == ' ')
         && t.chars().any(|c| c.is_ascii_digit()) && t.chars().any(|c| c == '+' || c == '-' || c == ' ')
@@ -199,6 +214,7 @@ fn flags_shape(t: &str) -> bool {
 pub fn shape_class(text: &str) -> Option<&'static str> {
     let t = text.trim();
     if paren_shape(t) { return Some("paren"); }
+    if quotes_shape(t) { return Some("quotes"); }
     if infix_shape(t).is_some() { return Some("infix"); }
     if escape_shape(t) { return Some("escape"); }
     if flags_shape(t) { return Some("flags"); }
@@ -216,6 +232,11 @@ pub fn shape_class(text: &str) -> Option<&'static str> {
 ///   flags:  digits, periods, signs and blanks only: on its own an atom; as an argument a sign or a blank does not make the
 ///           text a non-number, so it is the number Rust reads from it, or "Invalid integer/float"
 pub fn known_deviation(ctx: &str, text: &str, alone: &Result<Unifiable, String>, here: &Result<Unifiable, String>) -> Option<&'static str> {
+    // quotes: quotation marks that do not enclose the whole text - on its own (and as an infix operand) an atom, as an
+    // argument AND as a list element an error (both scans count the marks and check_quotes wants one enclosing pair)
+    if (is_argument_context(ctx) || ctx.starts_with("list_element")) && shape_class(text) == Some("quotes") {
+        return if matches!(alone, Ok(Unifiable::Atom(_))) && here.is_err() { Some("quotes") } else { None };
+    }
     if !is_argument_context(ctx) { return None; }
     let t = text.trim();
     let atom_is = |r: &Result<Unifiable, String>, s: &str| matches!(r, Ok(Unifiable::Atom(a)) if a == s);
@@ -268,11 +289,11 @@ pub fn check_contexts(case: &str) -> Result<(), String> {
 fn enum_known(kind: &str) -> Vec<String> {
     // listed by shape, not by present behaviour: the enumeration does not shrink when a defect is repaired
     let mut out = vec![];
-    for ctx in CONTEXTS { if is_argument_context(ctx) { for t in texts() { if fits(ctx, &t) && shape_class(&t) == Some(kind) && t == t.trim() {
+    for ctx in CONTEXTS { if is_argument_context(ctx) || (kind == "quotes" && ctx.starts_with("list_element")) { for t in texts() { if fits(ctx, &t) && shape_class(&t) == Some(kind) && t == t.trim() {
         out.push(format!("{} :: {}", ctx, t));
     } } } }
     // the plainest example first: it is the input known_findings.txt names
-    let first = match kind { "flags" => "-3", "infix" => "$X + 1", "escape" => "a\\,b", _ => "\"(\"" };
+    let first = match kind { "flags" => "-3", "infix" => "$X + 1", "escape" => "a\\,b", "quotes" => "a\"b\"c", _ => "\"(\"" };
     let lead = format!("argument :: {}", first);
     if let Some(k) = out.iter().position(|c| *c == lead) { let c = out.remove(k); out.insert(0, c); }
     out
@@ -281,6 +302,7 @@ pub fn enum_known_paren(_s: u64) -> Vec<String> { enum_known("paren") }
 pub fn enum_known_flags(_s: u64) -> Vec<String> { enum_known("flags") }
 pub fn enum_known_infix(_s: u64) -> Vec<String> { enum_known("infix") }
 pub fn enum_known_escape(_s: u64) -> Vec<String> { enum_known("escape") }
+pub fn enum_known_quotes(_s: u64) -> Vec<String> { enum_known("quotes") }
 
 /// fails on every deviation, known or not
 pub fn check_strict(case: &str) -> Result<(), String> {
